@@ -38,6 +38,11 @@ type c17Case struct {
 
 func genC17(t *rapid.T, protos []vt.NamedProto) c17Case {
 	mk := func(label string) string {
+		// an empty marker makes the protobuf body marshal to zero bytes: the envelope and the
+		// key check are owed for such a message as for any other
+		if rapid.IntRange(0, 4).Draw(t, label+"-empty") == 0 {
+			return ""
+		}
 		return rapid.StringMatching(`[A-Za-z0-9]{24}`).Draw(t, label)
 	}
 	return c17Case{
@@ -104,6 +109,9 @@ func C17PushPb(ctx erpc.PushCtx, a *secure.Encrypt) *erpc.Status {
 }
 
 func containsMarker(stream []byte, marker string) bool {
+	if marker == "" {
+		panic("containsMarker: empty marker")
+	}
 	forms := [][]byte{[]byte(marker), []byte(hex.EncodeToString([]byte(marker))), []byte(strings.ToUpper(hex.EncodeToString([]byte(marker))))}
 	b64 := base64.StdEncoding.EncodeToString([]byte(marker))
 	forms = append(forms, []byte(b64[:len(b64)-4]))
@@ -227,7 +235,7 @@ func runC17(c c17Case, protos []vt.NamedProto) []string {
 				} else if cmd.Status().Code() != statCode {
 					failf("reply encrypted with another key: caller sees %v, want the plugin's status code %d", cmd.Status(), statCode)
 				}
-				if getRes() == c.ResMarker {
+				if c.ResMarker != "" && getRes() == c.ResMarker {
 					failf("reply encrypted with another key: the original result was delivered")
 				}
 			case replyUnspecified && !c.SameKey:
@@ -244,13 +252,15 @@ func runC17(c c17Case, protos []vt.NamedProto) []string {
 	// wire: what must be encrypted is not in clear; what is unmarked stays clear
 	req := l.Pair.Stream(vt.AtoB)
 	rep := l.Pair.Stream(vt.BtoA)
-	if reqEncrypted && containsMarker(req, c.ReqMarker) {
+	if c.ReqMarker == "" {
+		// nothing to look for
+	} else if reqEncrypted && containsMarker(req, c.ReqMarker) {
 		failf("the request was marked secure but its argument appears in clear on the wire")
 	}
-	if !reqEncrypted && !containsMarker(req, c.ReqMarker) {
+	if c.ReqMarker != "" && !reqEncrypted && !containsMarker(req, c.ReqMarker) {
 		failf("an unmarked request does not carry its argument in clear (it must pass unchanged)")
 	}
-	if c.Kind == "call" && c.HandlerOK && !(reqEncrypted && !c.SameKey) {
+	if c.Kind == "call" && c.HandlerOK && c.ResMarker != "" && !(reqEncrypted && !c.SameKey) {
 		switch {
 		case replyUnspecified:
 		case replyEncrypted && containsMarker(rep, c.ResMarker):
@@ -262,7 +272,7 @@ func runC17(c c17Case, protos []vt.NamedProto) []string {
 	return fails
 }
 
-const ruleC17 = "both peers run the secure plugin (key length 16/24/32, equal or different keys); one call or push per case with body codec json or protobuf, a 24-character random marker in the argument and another in the result, request marked secure or not, accept-secure marker absent/true/false, handler succeeding or failing; oracle: with decipherable traffic the handler sees the original argument and the caller the original result; with a different key the handler is not invoked (or the result not delivered) and the status carries the plugin's code; wire capture of both directions: a marker that must be encrypted never occurs (raw, hex, base64), a marker of an unmarked message does occur; the reply of (secure request, accept=false) is not asserted either way; non-trivial = at least one frame must be encrypted; distinct by case"
+const ruleC17 = "both peers run the secure plugin (key length 16/24/32, equal or different keys); one call or push per case with body codec json or protobuf, a 24-character random marker (or, one time in five, an empty one: the protobuf body then marshals to zero bytes) in the argument and another in the result, request marked secure or not, accept-secure marker absent/true/false, handler succeeding or failing; oracle: with decipherable traffic the handler sees the original argument and the caller the original result; with a different key the handler is not invoked (or the result not delivered) and the status carries the plugin's code; wire capture of both directions: a marker that must be encrypted never occurs (raw, hex, base64), a marker of an unmarked message does occur; the reply of (secure request, accept=false) is not asserted either way; non-trivial = at least one frame must be encrypted; distinct by case"
 
 func TestC17Secure(t *testing.T) {
 	rec := vt.NewRec(t, "C17", "secure", ruleC17)
